@@ -123,6 +123,7 @@ type PathResult struct {
 	PCModel   map[string]string `json:"pc_model,omitempty"`
 	Decls     []string          `json:"-"`
 	PC        []string          `json:"-"`
+	Evals     []string          `json:"-"`
 	Witnesses map[string]string `json:"witnesses,omitempty"`
 	Events    []Event           `json:"events,omitempty"`
 	Docs      []DocNodeInfo     `json:"docs,omitempty"`
